@@ -494,6 +494,14 @@ SWI = "lerax/env/mujoco/swimmer.py"
 
 ENTRIES += [
     # ---------------------------------------------------------------- C17
+    M("C17-asset-hopper-timestep", "C17", "C17.14", ("lerax/env/mujoco/assets/hopper.xml", '<option integrator="RK4" timestep="0.002"/>', '<option integrator="RK4" timestep="0.004"/>')),
+    M("C17-asset-hopper-gear", "C17", "C17.14", ("lerax/env/mujoco/assets/hopper.xml", 'gear="200.0" joint="leg_joint"', 'gear="150.0" joint="leg_joint"')),
+    M("C17-asset-humanoid-gear", "C17", "C17.14", ("lerax/env/mujoco/assets/humanoid.xml", '<motor gear="100" joint="abdomen_z" name="abdomen_z"/>', '<motor gear="40" joint="abdomen_z" name="abdomen_z"/>')),
+    M("C17-asset-ip-ctrlrange", "C17", "C17.14", ("lerax/env/mujoco/assets/inverted_pendulum.xml", 'ctrlrange="-3 3" gear="100" joint="slider"', 'ctrlrange="-1 1" gear="100" joint="slider"')),
+    M("C02-idp-size-literal", "C02", "C02.4", ("lerax/env/mujoco/inverted_double_pendulum.py", "        obs_size = 9\n", "        obs_size = 11\n")),
+    M("C02-reacher-size-literal", "C02", "C02.4", ("lerax/env/mujoco/reacher.py", "        obs_size = 10\n", "        obs_size = 11\n")),
+    V("C17-v-asset-solver", "C17", ("lerax/env/mujoco/assets/humanoid.xml", 'solver="Newton"', 'solver="CG"')),
+    V("C17-v-asset-number-format", "C17", ("lerax/env/mujoco/assets/hopper.xml", '<option integrator="RK4" timestep="0.002"/>', '<!-- integration -->\n  <option timestep="2e-3" integrator="RK4" />')),
     M("C17-default-ctrl-cost", "C17", "C17.7", (ANT, "        ctrl_cost_weight: float = 0.5,", "        ctrl_cost_weight: float = 0.05,")),
     M("C17-default-healthy-z", "C17", "C17.7", (WAL, "healthy_z_range: tuple[float, float] = (0.8, 2.0)", "healthy_z_range: tuple[float, float] = (0.7, 2.0)")),
     M("C17-cmc-goal", "C17", "C17.1", (CMC, "        goal_position: Float[ArrayLike, \"\"] = 0.45,", "        goal_position: Float[ArrayLike, \"\"] = 0.5,")),
